@@ -195,6 +195,35 @@ def shrink_candidates(case):
 
 
 # ----------------------------------------------------------------------------------------------
+_BUILTIN = {}
+
+
+def _builtin_triples(name):
+    """the (layer type, constraint, function) registrations of a built-in specification, in library order, observed
+    through the public registration call: the defining module is executed once more in a scratch namespace (sys.modules
+    untouched) while CostSpec.__setitem__ is recorded - independent of how CostSpec stores its entries"""
+    if name not in _BUILTIN:
+        import runpy
+        from plinio.cost import CostSpec
+        rec = []
+        real = CostSpec.__setitem__
+
+        def recording(self, key, fn):
+            rec.append((self, key[0], key[1], fn))
+            return real(self, key, fn)
+        CostSpec.__setitem__ = recording
+        try:
+            g = runpy.run_module('plinio.cost.' + name)
+        finally:
+            CostSpec.__setitem__ = real
+        spec = g[name]
+        out = [(p, c, f) for (s_, p, c, f) in rec if s_ is spec]
+        if not out:
+            raise LookupError(name)
+        _BUILTIN[name] = out
+    return _BUILTIN[name]
+
+
 _NETS = {}
 
 
@@ -511,10 +540,11 @@ def execute(case):
         elif kind == 'builtin_permuted':
             # re-register a built-in specification in a seeded order: the PIT cost must not change
             orig = getattr(PC, op['spec'])
-            triples = []
-            for pat, lst in orig.data.items():
-                for constr, fn in lst:
-                    triples.append((pat, constr, fn))
+            try:
+                triples = list(_builtin_triples(op['spec']))
+            except Exception as e:         # the registrations of this built-in cannot be observed: nothing to permute
+                bump('builtin_permutation_skipped_' + type(e).__name__)
+                continue
             Stream(op['perm_seed'], 'perm').shuffle(triples)
             cs2 = CostSpec(shared=orig.shared, default_behavior='zero')
             cs2.default = orig.default
